@@ -311,9 +311,22 @@ class TrajectoryCalc:
             # Check height of trajectory at the zero distance (using current self.barrel_elevation):
             # the row interpolated at zero_distance, not the last integration point, which lies up to one
             # step beyond it where the sight line of an inclined shot is already at another height
-            t = self._integrate(shot_info, zero_distance, zero_distance, TrajFlag.RANGE)[-1]
-            height = t.height >> Distance.Foot
+            try:
+                t = self._integrate(shot_info, zero_distance, zero_distance, TrajFlag.RANGE)[-1]
+                range_error = None
+            except RangeError as error:
+                # this elevation falls short of the target: aim the next one from where the trajectory ended,
+                # measuring that point against the sight line at its own distance
+                t = error.incomplete_trajectory[-1]
+                range_error = error
+                if (t.distance >> Distance.Foot) <= 0:
+                    raise
+            height = (t.height >> Distance.Foot) - (
+                (t.distance >> Distance.Foot) - zero_distance) * math.tan(self.look_angle)
             zero_finding_error = math.fabs(height - height_at_zero)
+            if range_error is not None and zero_finding_error <= _cZeroFindingAccuracy:
+                # on the sight line but ended before the target: no correction left to try, target is out of reach
+                raise range_error
             if zero_finding_error > _cZeroFindingAccuracy:
                 # Adjust barrel elevation to close height at zero distance (d(height) = distance * d(tan(elevation)))
                 self.barrel_elevation -= (height - height_at_zero) / zero_distance * math.cos(self.barrel_elevation) ** 2
